@@ -319,3 +319,290 @@ Theorem compile_label_scopes :
 Proof. exact Scopes.compile_label_scopes. Qed.
 Print Assumptions compile_label_scopes.
 
+
+(* ---- the other half at top level (ProgramGrammar.v): an accepted token stream IS a sequence of top-level statements; the parser's
+   top-level loop drops, duplicates and reorders nothing. parse_tops_grammar: parse_tops succeeds IFF the stream decomposes into
+   statements each parsed by its own parser from what the previous one left (stmts); top_step_shape: only the seven keywords; a
+   const adds a constant and nothing else, every other statement adds exactly ONE top - the one written there: same keyword, the
+   written name, the written scope modifier or the documented default (top_written) - a text statement also exactly one text.
+   program_grammar(_real), compile_program_grammar: tops p = the tops of the statements in source order ++ the hoisted movements,
+   texts p = the hoisted texts ++ the text statements in source order, hoisted ones local with invented names.
+   program_counts, every_written_statement_is_in_the_program, every_program_statement_is_written. parse_tops_error,
+   first_failing_statement_decides: the first failing statement's error is the program's error (ProgramGrammar.parse_program_error_cases:
+   else one of the two name checks). accepted_is_tops_run / source_accepted_is_tops_run: the witness Independence.v asks for, for every
+   accepted source without NUL (boundary B20: eof_only_last). ---- *)
+From Pory Require ProgramGrammar. Open Scope list_scope.
+Theorem parse_tops_grammar :
+  forall (av : list (text * autovar)) (sw : list (text * text)) (ee : bool) (pf : toks -> res (token * text * text * toks)) 
+    (f : nat) (st : pstate) (ts : toks) (st' : pstate),
+  parse_tops av sw ee pf f st ts = Ok st' <-> (exists l : list ProgramGrammar.piece, ProgramGrammar.stmts av sw ee pf f st ts l st').
+Proof. exact ProgramGrammar.parse_tops_grammar. Qed.
+Print Assumptions parse_tops_grammar.
+
+Theorem stmts_fun :
+  forall (av : list (text * autovar)) (sw : list (text * text)) (ee : bool) (pf : toks -> res (token * text * text * toks)) 
+    (f : nat) (st : pstate) (ts : toks) (l1 : list ProgramGrammar.piece) (st1 : pstate) (l2 : list ProgramGrammar.piece) 
+    (st2 : pstate), ProgramGrammar.stmts av sw ee pf f st ts l1 st1 -> ProgramGrammar.stmts av sw ee pf f st ts l2 st2 -> l1 = l2 /\ st1 = st2.
+Proof. exact ProgramGrammar.stmts_fun. Qed.
+Print Assumptions stmts_fun.
+
+Theorem top_step_shape :
+  forall (av : list (text * autovar)) (sw : list (text * text)) (ee : bool) (pf : toks -> res (token * text * text * toks)) 
+    (f : nat) (c : list (text * text)) (h : hst) (ts : toks) (c' : list (text * text)) (h' : hst) (tps : list top) (txs : list textdef)
+    (y : toks),
+  Independence.top_step av sw ee pf f c h ts = Ok (c', h', tps, txs, y) ->
+  ProgramGrammar.ends_as (ttype (cur ts)) ts y /\
+  (ttype (cur ts) = CONST /\
+   tps = [] /\ txs = [] /\ h' = h /\ (exists name v : text, c' = (name, v) :: c /\ ProgramGrammar.const_written c ts name) \/
+   ttype (cur ts) <> CONST /\
+   c' = c /\
+   (exists tp : top,
+      tps = [tp] /\
+      ProgramGrammar.top_written ts tp /\
+      match tp with
+      | TTextStmt => h' = h /\ (exists x : textdef, txs = [x] /\ ProgramGrammar.text_written ts x)
+      | TScript _ _ _ | TMapScripts _ _ _ _ => txs = []
+      | _ => h' = h /\ txs = []
+      end)).
+Proof. exact ProgramGrammar.top_step_shape. Qed.
+Print Assumptions top_step_shape.
+
+Theorem stmts_to_state :
+  forall (av : list (text * autovar)) (sw : list (text * text)) (ee : bool) (pf : toks -> res (token * text * text * toks)) 
+    (f : nat) (st : pstate) (ts : toks) (l : list ProgramGrammar.piece) (f' : nat) (st' : pstate) (ts' : toks),
+  ProgramGrammar.stmts_to av sw ee pf f st ts l f' st' ts' ->
+  ptops st' = ptops st ++ ProgramGrammar.added_tops l /\
+  ptexts st' = ptexts st ++ ProgramGrammar.added_texts l /\
+  pconsts st' = last (map ProgramGrammar.p_c' l) (pconsts st) /\ ph st' = last (map ProgramGrammar.p_h' l) (ph st).
+Proof. exact ProgramGrammar.stmts_to_state. Qed.
+Print Assumptions stmts_to_state.
+
+Theorem stmts_to_written :
+  forall (av : list (text * autovar)) (sw : list (text * text)) (ee : bool) (pf : toks -> res (token * text * text * toks)) 
+    (f : nat) (st : pstate) (ts : toks) (l : list ProgramGrammar.piece) (f' : nat) (st' : pstate) (ts' : toks),
+  ProgramGrammar.stmts_to av sw ee pf f st ts l f' st' ts' ->
+  Forall2 ProgramGrammar.top_written (ProgramGrammar.top_starts l) (ProgramGrammar.added_tops l) /\
+  Forall2 ProgramGrammar.text_written (ProgramGrammar.kw_starts TEXT l) (ProgramGrammar.added_texts l) /\
+  (exists cs : list (text * text),
+     pconsts st' = cs ++ pconsts st /\ Forall2 ProgramGrammar.const_named (ProgramGrammar.kw_starts CONST l) (rev cs)).
+Proof. exact ProgramGrammar.stmts_to_written. Qed.
+Print Assumptions stmts_to_written.
+
+Theorem stmts_to_keywords :
+  forall (av : list (text * autovar)) (sw : list (text * text)) (ee : bool) (pf : toks -> res (token * text * text * toks)) 
+    (f : nat) (st : pstate) (ts : toks) (l : list ProgramGrammar.piece) (f' : nat) (st' : pstate) (ts' : toks),
+  ProgramGrammar.stmts_to av sw ee pf f st ts l f' st' ts' ->
+  Forall (fun x : toks => is_toplevel (ttype (cur x)) = true) (ProgramGrammar.starts l).
+Proof. exact ProgramGrammar.stmts_to_keywords. Qed.
+Print Assumptions stmts_to_keywords.
+
+Theorem program_grammar :
+  forall (av : list (text * autovar)) (sw : list (text * text)) (ee : bool) (pf : toks -> res (token * text * text * toks)),
+  Independence.format_advs pf ->
+  forall (ts : toks) (p : program),
+  parse_program av sw ee pf ts = Ok p ->
+  exists (l : list ProgramGrammar.piece) (st' : pstate),
+    ProgramGrammar.stmts av sw ee pf (5 * Datatypes.length ts + 4) ProgramGrammar.pstate0 ts l st' /\
+    tops p = ProgramGrammar.added_tops l ++ hmovs (ph st') /\
+    texts p = htexts (ph st') ++ ProgramGrammar.added_texts l /\
+    Forall2 ProgramGrammar.top_written (ProgramGrammar.top_starts l) (ProgramGrammar.added_tops l) /\
+    Forall2 ProgramGrammar.text_written (ProgramGrammar.kw_starts TEXT l) (ProgramGrammar.added_texts l) /\
+    Forall hoisted_movement (hmovs (ph st')) /\ Forall hoisted_text (htexts (ph st')) /\ Forall (advs ts) (ProgramGrammar.starts l).
+Proof. exact ProgramGrammar.program_grammar. Qed.
+Print Assumptions program_grammar.
+
+Theorem program_grammar_real :
+  forall (av : list (text * autovar)) (sw : list (text * text)) (ee : bool) (fc : fontcfg) (cli_font : text) (cli_maxlen : Z) 
+    (ts : toks) (p : program),
+  parse_program av sw ee (parse_format fc cli_font cli_maxlen ee) ts = Ok p ->
+  exists (l : list ProgramGrammar.piece) (st' : pstate),
+    ProgramGrammar.stmts av sw ee (parse_format fc cli_font cli_maxlen ee) (5 * Datatypes.length ts + 4) ProgramGrammar.pstate0 ts l st' /\
+    tops p = ProgramGrammar.added_tops l ++ hmovs (ph st') /\
+    texts p = htexts (ph st') ++ ProgramGrammar.added_texts l /\
+    Forall2 ProgramGrammar.top_written (ProgramGrammar.top_starts l) (ProgramGrammar.added_tops l) /\
+    Forall2 ProgramGrammar.text_written (ProgramGrammar.kw_starts TEXT l) (ProgramGrammar.added_texts l) /\
+    Forall hoisted_movement (hmovs (ph st')) /\ Forall hoisted_text (htexts (ph st')) /\ Forall (advs ts) (ProgramGrammar.starts l).
+Proof. exact ProgramGrammar.program_grammar_real. Qed.
+Print Assumptions program_grammar_real.
+
+Theorem compile_program_grammar :
+  forall (hl hd hs : N -> bool) (av : list (text * autovar)) (sw : list (text * text)) (ee : bool) (fc : fontcfg) (cli_font : text)
+    (cli_maxlen : Z) (optimize : bool) (mp : option text) (src out : text),
+  Compile.compile hl hd hs av sw ee fc cli_font cli_maxlen optimize mp src = Compile.OutText out ->
+  let ts := lex hl hd hs src in
+  exists (p : program) (l : list ProgramGrammar.piece) (st' : pstate),
+    parse_program av sw ee (parse_format fc cli_font cli_maxlen ee) ts = Ok p /\
+    ProgramGrammar.stmts av sw ee (parse_format fc cli_font cli_maxlen ee) (5 * Datatypes.length ts + 4) ProgramGrammar.pstate0 ts l st' /\
+    tops p = ProgramGrammar.added_tops l ++ hmovs (ph st') /\
+    texts p = htexts (ph st') ++ ProgramGrammar.added_texts l /\
+    Forall2 ProgramGrammar.top_written (ProgramGrammar.top_starts l) (ProgramGrammar.added_tops l) /\
+    Forall2 ProgramGrammar.text_written (ProgramGrammar.kw_starts TEXT l) (ProgramGrammar.added_texts l) /\
+    Forall hoisted_movement (hmovs (ph st')) /\ Forall hoisted_text (htexts (ph st')) /\ Forall (advs ts) (ProgramGrammar.starts l).
+Proof. exact ProgramGrammar.compile_program_grammar. Qed.
+Print Assumptions compile_program_grammar.
+
+Theorem program_counts :
+  forall (av : list (text * autovar)) (sw : list (text * text)) (ee : bool) (pf : toks -> res (token * text * text * toks)),
+  Independence.format_advs pf ->
+  forall (ts : toks) (p : program) (l : list ProgramGrammar.piece) (st' : pstate),
+  parse_program av sw ee pf ts = Ok p ->
+  ProgramGrammar.stmts av sw ee pf (5 * Datatypes.length ts + 4) ProgramGrammar.pstate0 ts l st' ->
+  (forall kw : toktype,
+   kw <> CONST ->
+   kw <> MOVEMENT -> Datatypes.length (filter (ProgramGrammar.kind_is kw) (tops p)) = Datatypes.length (ProgramGrammar.kw_starts kw l)) /\
+  Datatypes.length (filter (ProgramGrammar.kind_is MOVEMENT) (tops p)) =
+  Datatypes.length (ProgramGrammar.kw_starts MOVEMENT l) + Datatypes.length (hmovs (ph st')) /\
+  Datatypes.length (texts p) = Datatypes.length (htexts (ph st')) + Datatypes.length (ProgramGrammar.kw_starts TEXT l).
+Proof. exact ProgramGrammar.program_counts. Qed.
+Print Assumptions program_counts.
+
+Theorem every_written_statement_is_in_the_program :
+  forall (av : list (text * autovar)) (sw : list (text * text)) (ee : bool) (pf : toks -> res (token * text * text * toks)),
+  Independence.format_advs pf ->
+  forall (ts : toks) (p : program) (l : list ProgramGrammar.piece) (st' : pstate),
+  parse_program av sw ee pf ts = Ok p ->
+  ProgramGrammar.stmts av sw ee pf (5 * Datatypes.length ts + 4) ProgramGrammar.pstate0 ts l st' ->
+  forall x : toks,
+  In x (ProgramGrammar.starts l) ->
+  (ttype (cur x) <> CONST -> exists tp : top, In tp (tops p) /\ ProgramGrammar.top_written x tp) /\
+  (ttype (cur x) = TEXT -> exists td : textdef, In td (texts p) /\ ProgramGrammar.text_written x td).
+Proof. exact ProgramGrammar.every_written_statement_is_in_the_program. Qed.
+Print Assumptions every_written_statement_is_in_the_program.
+
+Theorem every_program_statement_is_written :
+  forall (av : list (text * autovar)) (sw : list (text * text)) (ee : bool) (pf : toks -> res (token * text * text * toks)),
+  Independence.format_advs pf ->
+  forall (ts : toks) (p : program) (l : list ProgramGrammar.piece) (st' : pstate),
+  parse_program av sw ee pf ts = Ok p ->
+  ProgramGrammar.stmts av sw ee pf (5 * Datatypes.length ts + 4) ProgramGrammar.pstate0 ts l st' ->
+  (forall tp : top,
+   In tp (tops p) -> (exists x : toks, In x (ProgramGrammar.starts l) /\ ProgramGrammar.top_written x tp) \/ hoisted_movement tp) /\
+  (forall td : textdef,
+   In td (texts p) -> (exists x : toks, In x (ProgramGrammar.starts l) /\ ProgramGrammar.text_written x td) \/ hoisted_text td).
+Proof. exact ProgramGrammar.every_program_statement_is_written. Qed.
+Print Assumptions every_program_statement_is_written.
+
+Theorem parse_tops_outcome :
+  forall (av : list (text * autovar)) (sw : list (text * text)) (ee : bool) (pf : toks -> res (token * text * text * toks)) 
+    (f : nat) (st : pstate) (ts : toks),
+  exists (l : list ProgramGrammar.piece) (f1 : nat) (st1 : pstate) (ts1 : toks),
+    ProgramGrammar.stmts_to av sw ee pf f st ts l f1 st1 ts1 /\
+    (f1 = 0 /\ parse_tops av sw ee pf f st ts = Fuel \/
+     (exists f2 : nat, f1 = S f2 /\ curis EOF ts1 = true /\ parse_tops av sw ee pf f st ts = Ok st1) \/
+     (exists f2 : nat,
+        f1 = S f2 /\
+        curis EOF ts1 = false /\
+        ProgramGrammar.is_ok (Independence.top_step av sw ee pf f2 (pconsts st1) (ph st1) ts1) = false /\
+        parse_tops av sw ee pf f st ts = ProgramGrammar.res_of (Independence.top_step av sw ee pf f2 (pconsts st1) (ph st1) ts1))).
+Proof. exact ProgramGrammar.parse_tops_outcome. Qed.
+Print Assumptions parse_tops_outcome.
+
+Theorem parse_tops_error :
+  forall (av : list (text * autovar)) (sw : list (text * text)) (ee : bool) (pf : toks -> res (token * text * text * toks)) 
+    (f : nat) (st : pstate) (ts : toks) (e : perr),
+  parse_tops av sw ee pf f st ts = Err e <->
+  (exists (l : list ProgramGrammar.piece) (f2 : nat) (st1 : pstate) (ts1 : toks),
+     ProgramGrammar.stmts_to av sw ee pf f st ts l (S f2) st1 ts1 /\
+     curis EOF ts1 = false /\ Independence.top_step av sw ee pf f2 (pconsts st1) (ph st1) ts1 = Err e).
+Proof. exact ProgramGrammar.parse_tops_error. Qed.
+Print Assumptions parse_tops_error.
+
+Theorem first_failing_statement_decides :
+  forall (av : list (text * autovar)) (sw : list (text * text)) (ee : bool) (pf : toks -> res (token * text * text * toks)) 
+    (ts : list token) (l : list ProgramGrammar.piece) (f2 : nat) (st1 : pstate) (ts1 : toks) (e : perr),
+  ProgramGrammar.stmts_to av sw ee pf (5 * Datatypes.length ts + 4) ProgramGrammar.pstate0 ts l (S f2) st1 ts1 ->
+  curis EOF ts1 = false -> Independence.top_step av sw ee pf f2 (pconsts st1) (ph st1) ts1 = Err e -> parse_program av sw ee pf ts = Err e.
+Proof. exact ProgramGrammar.first_failing_statement_decides. Qed.
+Print Assumptions first_failing_statement_decides.
+
+
+Theorem parse_tops_tops_run :
+  forall (av : list (text * autovar)) (sw : list (text * text)) (ee : bool) (pf : toks -> res (token * text * text * toks)) 
+    (f : nat) (st : pstate) (ts : toks) (st' : pstate),
+  parse_tops av sw ee pf f st ts = Ok st' ->
+  exists (f1 : nat) (st1 : pstate) (ts1 : toks),
+    Independence.tops_run av sw ee pf f st ts f1 st1 ts1 /\
+    parse_tops av sw ee pf f1 st1 ts1 = Ok st' /\
+    (curis EOF ts1 = true /\ st1 = st' \/
+     ttype (cur ts1) = CONST /\
+     curis EOF ts1 = false /\
+     (exists (f2 : nat) (c' : list (text * text)) (y : toks),
+        f1 = S f2 /\
+        Independence.top_step av sw ee pf f2 (pconsts st1) (ph st1) ts1 = Ok (c', ph st1, [], [], y) /\
+        curis EOF y = true /\ parse_tops av sw ee pf f2 (Independence.st_add st1 c' (ph st1) [] []) (adv y) = Ok st')).
+Proof. exact ProgramGrammar.parse_tops_tops_run. Qed.
+Print Assumptions parse_tops_tops_run.
+
+Theorem accepted_is_tops_run :
+  forall (av : list (text * autovar)) (sw : list (text * text)) (ee : bool) (pf : toks -> res (token * text * text * toks)),
+  Independence.format_advs pf ->
+  forall (f : nat) (st : pstate) (ts : toks) (st' : pstate),
+  ProgramGrammar.eof_only_last ts ->
+  parse_tops av sw ee pf f st ts = Ok st' ->
+  exists (f1 : nat) (st1 : pstate) (ts1 : toks),
+    Independence.tops_run av sw ee pf f st ts f1 st1 ts1 /\
+    parse_tops av sw ee pf f1 st1 ts1 = Ok st' /\
+    ptops st1 = ptops st' /\
+    ptexts st1 = ptexts st' /\
+    ph st1 = ph st' /\
+    (curis EOF ts1 = true /\ st1 = st' \/
+     ttype (cur ts1) = CONST /\
+     curis EOF ts1 = false /\
+     (exists name v : text, pconsts st' = (name, v) :: pconsts st1 /\ ProgramGrammar.const_written (pconsts st1) ts1 name)).
+Proof. exact ProgramGrammar.accepted_is_tops_run. Qed.
+Print Assumptions accepted_is_tops_run.
+
+Theorem lex_eof_only_last :
+  forall (hl hd hs : N -> bool) (src : list N), ~ In 0%N src -> ProgramGrammar.eof_only_last (lex hl hd hs src).
+Proof. exact ProgramGrammar.lex_eof_only_last. Qed.
+Print Assumptions lex_eof_only_last.
+
+Theorem source_accepted_is_tops_run :
+  forall (hl hd hs : N -> bool) (av : list (text * autovar)) (sw : list (text * text)) (ee : bool) (fc : fontcfg) (cli_font : text)
+    (cli_maxlen : Z) (src : list N) (f : nat) (st st' : pstate),
+  ~ In 0%N src ->
+  parse_tops av sw ee (parse_format fc cli_font cli_maxlen ee) f st (lex hl hd hs src) = Ok st' ->
+  exists (f1 : nat) (st1 : pstate) (ts1 : toks),
+    Independence.tops_run av sw ee (parse_format fc cli_font cli_maxlen ee) f st (lex hl hd hs src) f1 st1 ts1 /\
+    parse_tops av sw ee (parse_format fc cli_font cli_maxlen ee) f1 st1 ts1 = Ok st' /\
+    ptops st1 = ptops st' /\
+    ptexts st1 = ptexts st' /\
+    ph st1 = ph st' /\
+    (curis EOF ts1 = true /\ st1 = st' \/
+     ttype (cur ts1) = CONST /\
+     curis EOF ts1 = false /\
+     (exists name v : text, pconsts st' = (name, v) :: pconsts st1 /\ ProgramGrammar.const_written (pconsts st1) ts1 name)).
+Proof. exact ProgramGrammar.source_accepted_is_tops_run. Qed.
+Print Assumptions source_accepted_is_tops_run.
+
+Theorem accepted_files_same_statements :
+  forall (av : list (text * autovar)) (sw : list (text * text)) (ee : bool) (fc : fontcfg) (cli_font : text) (cli_maxlen : Z) 
+    (ra rb : toks) (A X : list token),
+  eof_ended ra ->
+  eof_ended rb ->
+  Independence.class_ok ra rb ->
+  ProgramGrammar.eof_only_last (X ++ ra) ->
+  ProgramGrammar.eof_only_last (A ++ X ++ rb) ->
+  forall (l1 : list ProgramGrammar.piece) (f1 : nat) (s1 : pstate) (t1 : toks),
+  ProgramGrammar.stmts_to av sw ee (parse_format fc cli_font cli_maxlen ee) (5 * Datatypes.length (X ++ ra) + 4) ProgramGrammar.pstate0
+    (X ++ ra) l1 f1 s1 t1 ->
+  ProgramGrammar.boundary l1 t1 ra ->
+  forall (l2 : list ProgramGrammar.piece) (f2 : nat) (s2 : pstate) (t2 : toks),
+  ProgramGrammar.stmts_to av sw ee (parse_format fc cli_font cli_maxlen ee) (5 * Datatypes.length (A ++ X ++ rb) + 4) ProgramGrammar.pstate0
+    (A ++ X ++ rb) l2 f2 s2 t2 ->
+  ProgramGrammar.boundary l2 t2 (X ++ rb) ->
+  forall (la : list ProgramGrammar.piece) (g : nat) (sA : pstate),
+  ProgramGrammar.stmts_to av sw ee (parse_format fc cli_font cli_maxlen ee) (5 * Datatypes.length (A ++ X ++ rb) + 4) ProgramGrammar.pstate0
+    (A ++ X ++ rb) la g sA (X ++ rb) ->
+  pconsts sA = [] ->
+  ph sA = hst0 ->
+  forall p : program,
+  parse_program av sw ee (parse_format fc cli_font cli_maxlen ee) (A ++ X ++ rb) = Ok p ->
+  exists (l1a l1b l2b : list ProgramGrammar.piece) (d' rt : list top) (ht rx : list textdef),
+    l1 = l1a ++ l1b /\
+    l2 = la ++ l2b /\
+    Independence.shifted ra rb (ProgramGrammar.added_tops l1a) d' /\
+    tops p = ProgramGrammar.added_tops la ++ d' ++ rt /\ texts p = ht ++ ProgramGrammar.added_texts la ++ ProgramGrammar.added_texts l1a ++ rx.
+Proof. exact ProgramGrammar.accepted_files_same_statements. Qed.
+Print Assumptions accepted_files_same_statements.
+
